@@ -23,9 +23,23 @@ def run(ctx):
     for reg, strobe, val, w in (('address', 'endpoint_mux.shared.address_changed', 'endpoint_mux.shared.new_address', 7),
                                 ('configuration', 'endpoint_mux.shared.config_changed', 'endpoint_mux.shared.new_config', 8)):
         ds = dev.drivers(reg, exact=True)
-        load = [a for a in ds if a.rhs.canon() == val and q.atoms(a) == {(strobe, True)}]
-        clr = [a for a in ds if q.is_zero(a.rhs) and q.atoms(a) == {('reset_sequencer.bus_reset', True)}]
-        ok = len(ds) == 2 and len(load) == 1 and len(clr) == 1 and clr[0].order > load[0].order
+        # next value of the register for every valuation of (bus reset, change strobe), last assignment wins -- a later
+        # overriding clear and an explicit If(reset)/Elif(changed) are the same thing: reset -> 0, else changed -> new value,
+        # else hold; nothing else may be mentioned
+        from ..fsm import lit_atoms, assignments, holds
+        RSTB = 'reset_sequencer.bus_reset'
+        ats = sorted({x for a in ds for l in a.guard for x in lit_atoms(l)})
+        ok = bool(ds) and set(ats) == {RSTB, strobe} and all(a.domain != 'comb' and a.state is None for a in ds)
+        if ok:
+            for asg in assignments(ats):
+                fire = sorted([a for a in ds if holds(a.guard, asg)], key=lambda a: a.order)
+                last = fire[-1] if fire else None
+                if asg[RSTB]:
+                    ok = ok and last is not None and q.is_zero(last.rhs)
+                elif asg[strobe]:
+                    ok = ok and last is not None and last.rhs.canon() == val
+                else:
+                    ok = ok and last is None
         ctx.ob('C08.register-writers', 'USBDevice.' + reg, ok, ds[0].loc if ds else None,
                '%s is loaded under its change strobe and cleared (with priority) by a bus reset, nothing else: %s' % (reg, [q.fmt(a) for a in ds]))
         si = dev.signals.get(reg)
